@@ -73,7 +73,8 @@ def run(ctx):
     spacer_column_obligations(ctx, r4, "C08.R4")
     # translated bind messages written with the bind group (bind::jr:constraintMsg::French): the attribute name keeps its
     # spelling and the language its place (shared with C13.R3's header cases)
-    _take(r4, c13.run(ctx), "C13.R3", lambda c: c.startswith("process_header[") and ("jr:" in c or "::fr" in c or "image" in c))
+    _take(r4, c13.run(ctx), "C13.R3", lambda c: (c.startswith("process_header[") and ("jr:" in c or "::fr" in c or "image" in c))
+          or c.startswith("dealias_and_group_headers[language names") or c.startswith("dealias_and_group_headers[the same language"))
     rules.append(r4)
     r5 = Rule("C08", "C08.R5", "unsuffixed cells are grouped under the survey's default language", floor=10,
               necessary="two different resolutions of the default language file the unsuffixed texts under a language that is not the default")
